@@ -63,7 +63,7 @@ inductive Action where
   | writeElem (v : Nat)      -- one iteration of `write_slice_with`: element created and stored
   | ctorPanic                -- `create_element(i)` panics
   | finish                   -- end of the `write_slice_with` loop: `assume_init`
-  | assumeInit               -- the client's own `unsafe assume_init` after initialising by hand
+  | assumeInit               -- the client's own `assume_init` (not a safe fn) after initialising by hand
   | write (v : Nat)          -- `GcBuilder::write`
   | copy (src : List Nat)    -- `copy_slice` / `copy_str`
   | drop                     -- the builder goes out of scope
